@@ -11,7 +11,8 @@ CHECKS = {
         "engine": "sched",
         "harness": "c16",
         "packages": ["cache"],
-        "level": "exploration",
+        "race_probe": {"harness": "c16race", "budget": {"quick": 5, "thorough": 60}},
+    "level": "exploration",
         "budget": {"quick": 20, "thorough": 600},
         "rule": "one evaluation = one seeded simulated run: generated workload (implementation x capacity in {-1,0,1,2,3,4,6} x 1-4 clients x 2-16 ops over 2-5 keys, unique put values) under a seeded schedule (random / PCT / sticky, drawn per run) of the instrumented cache package. "
                 "A run is non-trivial if at least one scheduler decision with >=2 runnable tasks switched tasks (or a fault fired); distinct = distinct hashes of (workload, sequence of (task, source site) scheduling decisions), counted over all workers (per-worker cap 2M, so a lower bound).",
@@ -47,6 +48,7 @@ CHECKS["C13"] = {
     "engine": "sched",
     "harness": "c13",
     "packages": ["cardinality"],
+    "race_probe": {"harness": "c13race", "budget": {"quick": 5, "thorough": 60}},
     "level": "exploration",
     "budget": {"quick": 25, "thorough": 600},
     "rule": "one evaluation = one seeded simulated run over the instrumented cardinality package: width 32 or 64, 3-7 providers (bitmap / threadSafe(bitmap), owned or shared, seeded from dense, sparse, 2^16-, 2^32- and max-adjacent values), 1-3 clients x 3-15 ops (add/remove/contains/checkedadd/cardinality/slice/each/clear/clone+edit/or/and/andnot/xor with every receiver x operand pairing). W1 checks answers against a map model with porcupine (partition per receiver), plus an audit of every provider at quiescence; W2 makes wrappers receivers and operands of each other concurrently and checks termination and that no element appears that nobody added. "
@@ -160,6 +162,7 @@ CHECKS["C05"] = {
     "harness": "c05",
     "packages": ["cypher/models/pgsql/translate", "cypher/models/pgsql/optimize", "cypher/models/pgsql/format", "cypher/models/pgsql", "cypher/models/walk", "cypher/models/cypher"],
     "rules": "fnentry",
+    "race_probe": {"harness": "c05race", "budget": {"quick": 5, "thorough": 60}},
     "level": "exploration",
     "budget": {"quick": 30, "thorough": 600},
     "rule": "one evaluation = one seeded simulated run: 2-5 tasks translate queries from the repository's own corpus (-- case: lines of cypher/models/pgsql/test/translation_cases/*.sql read from /repo at run time, with their parameter blocks, plus 4 extra queries); two thirds of the tasks share ONE AST value and ONE parameter map; all share one kind mapper; a task may get a mapper error or a context cancellation on its k-th mapper call. translate/optimize/format/walk/cypher are instrumented with a scheduling point at every function entry, so the seeded scheduler interleaves concurrent translations at function granularity. "
